@@ -17,6 +17,7 @@ import (
 	"path/filepath"
 	"runtime"
 	"sort"
+	"strconv"
 	"strings"
 	"sync"
 	"sync/atomic"
@@ -350,6 +351,8 @@ func runChild(specJSON string) int {
 			for _, op := range ops {
 				m := spec.Mods[op.Mod]
 				res := OpResult{Thread: ti, Tid: tidOf(), Op: op}
+				// op marker for the tracer: a stat of a harness-only path below the cache
+				os.Stat(filepath.Join(spec.Cache, ".op", op.Kind, strconv.Itoa(op.Mod)))
 				var loc module.SourceLoc
 				var err error
 				switch op.Kind {
